@@ -107,6 +107,7 @@ impl WireWidth {
         match self {
             WireWidth::Unlimited => !0,
             WireWidth::Bits(0) => 0,
+            WireWidth::Bits(s) if s >= 128 => !0,
             WireWidth::Bits(s) => ((!0) >> (128 - s)),
         }
     }
@@ -341,7 +342,7 @@ impl UnOpCode {
     fn apply(self, value: WireValue) -> Result<WireValue, Error> {
         let new_value = match self {
             UnOpCode::Plus => value.bits,
-            UnOpCode::Negate => !value.bits + 1,
+            UnOpCode::Negate => (!value.bits).wrapping_add(1),
             UnOpCode::Complement => !value.bits,
             UnOpCode::Not => if value.bits != 0 { 0 } else { 1 },
         };
@@ -575,17 +576,17 @@ impl SpannedExpr {
             },
             Expr::BitSelect { ref from, low, high } => {
                 let inner_value = from.evaluate(wires)?.bits;
-                let shifted = inner_value >> low;
-                Ok(WireValue::new(shifted).as_width(WireWidth::Bits(high - low)))
+                let shifted = inner_value.checked_shr(low as u32).unwrap_or(0);
+                Ok(WireValue::new(shifted).as_width(WireWidth::Bits(high.saturating_sub(low))))
             },
             Expr::Concat(ref left, ref right) => {
                 let left_value = left.evaluate(wires)?;
                 let right_value = right.evaluate(wires)?;
                 if let WireWidth::Bits(right_bits) = right_value.width {
                     if let WireWidth::Bits(left_bits) = left_value.width {
-                        let shifted_left = left_value.bits << right_bits;
+                        let shifted_left = left_value.bits.checked_shl(right_bits as u32).unwrap_or(0);
                         Ok(WireValue::new(shifted_left | right_value.bits).as_width(
-                            WireWidth::Bits(left_bits + right_bits)))
+                            WireWidth::Bits(left_bits.saturating_add(right_bits))))
                     } else {
                         Err(Error::NoBitWidth(left.clone()))
                     }
